@@ -285,6 +285,9 @@ class TwistedConnection(Connection):
         if not self.is_defunct:
             self.error_all_requests(
                 ConnectionShutdown("Connection to %s was closed" % self.endpoint))
+            # closed during the handshake: whoever waits for the connection must see a failure
+            if not self.connected_event.is_set():
+                self.last_error = ConnectionShutdown("Connection to %s was closed" % self.endpoint)
             # don't leave in-progress operations hanging
             self.connected_event.set()
 
